@@ -52,9 +52,16 @@ fn main() {
             sets.push((vec![u.to_string()], s, e));
         }
     }
+    // the attribute names the standard command groups either by their bare identifier or by a
+    // path to the trait (`scpi::StandardCommands`): every set that requests a group is planned
+    // in both spellings
+    let sets: Vec<(Vec<String>, bool, bool, bool)> = sets
+        .into_iter()
+        .flat_map(|(t, s, e)| if s || e { vec![(t.clone(), s, e, false), (t, s, e, true)] } else { vec![(t, s, e, false)] })
+        .collect();
     let mut accept = vec![];
     let mut reject = vec![];
-    for (texts, s, e) in sets {
+    for (texts, s, e, path) in sets {
         let mut all: Vec<String> = texts.clone();
         if s {
             all.push(STD_VERSION.into());
@@ -65,8 +72,8 @@ fn main() {
         }
         let decls: Vec<_> = all.iter().map(|t| parse_decl(t)).collect();
         match spec_collision(&decls) {
-            None => accept.push(json!({"decls": texts, "std": s, "err": e})),
-            Some((_, q)) => reject.push(json!({"decls": texts, "std": s, "err": e, "error": if q { "QueryExists" } else { "CommandExists" }})),
+            None => accept.push(json!({"decls": texts, "std": s, "err": e, "attr_path": path})),
+            Some((_, q)) => reject.push(json!({"decls": texts, "std": s, "err": e, "attr_path": path, "error": if q { "QueryExists" } else { "CommandExists" }})),
         }
     }
     let j = json!({"tier": args.tier, "accept": accept, "reject": reject});
